@@ -3,6 +3,7 @@ package main
 import (
 	"encoding/json"
 	"fmt"
+	"os"
 	"sort"
 
 	"verifharness/internal/gen"
@@ -211,10 +212,10 @@ func c10Eval(c *ctx, cs c10Case) {
 		r := rng.New(rng.HashStr(key))
 		pick := plain
 		if !c.thorough && len(plain) > 2 {
-			// quick tier: the first name and one other; the thorough tier fills every name (up to 6) individually
+			// quick tier: the first name and one other; thorough tier: all names up to three, else first, last and a random one
 			pick = []string{plain[0], plain[1+r.Intn(len(plain)-1)]}
-		} else if len(plain) > 6 {
-			pick = []string{plain[0], plain[len(plain)-1], plain[r.Intn(len(plain))], plain[r.Intn(len(plain))]}
+		} else if len(plain) > 3 {
+			pick = []string{plain[0], plain[len(plain)-1], plain[r.Intn(len(plain))]}
 		}
 		for _, name := range pick {
 			val, found := valueFor(want, name, r)
@@ -391,6 +392,24 @@ func (s shape) build(nv *int, ne *int) *ref.Item {
 }
 
 func runC10(c *ctx) {
+	if os.Getenv("VERIF_C10_PROBE") != "" {
+		for _, bd := range [][2]int{{5, 2}, {6, 2}, {6, 3}, {7, 2}} {
+			n, pairs := 0, 0
+			lists(bd[0], bd[1], func(s shape) {
+				n++
+				nv, ne := 0, 0
+				t := s.build(&nv, &ne)
+				e := len(ellipsisNames(t.Vars()))
+				p := 1
+				for i := 0; i < e; i++ {
+					p *= 5
+				}
+				pairs += p
+			})
+			fmt.Printf("budget %d depth %d: %d templates, %d (template,counts) pairs\n", bd[0], bd[1], n, pairs)
+		}
+		os.Exit(0)
+	}
 	budget, depth := c.pick(5, 6), c.pick(2, 3)
 	countVals := []int{-1, 0, 1, 2, 3} // -1 = unfilled
 	c.Rule = fmt.Sprintf("reference expander oracle. Exhaustive part: every list template of at most %d nodes and %d nesting levels over the item alphabet {scalar with variable, constant scalar, ASCII variable with bounds, list variable, nested list}, an ellipsis at any legal position or absent, x every count map over {unfilled,0,1,2,3}; plus for every template with >= 2 ellipses every two-step split. Random part: generated trees (depth <= 6, counts <= 12, results <= 50000 nodes), arbitrary distinct ellipsis numbers. Checked: String(), Size(), Variables() (ellipsis names by position; remaining names must be unique and '...'/'...[0]' or '...[0]'..'...[k-1]' in order), and that generated names can be filled individually and land in the right place. non-trivial = some ellipsis filled with n >= 1; distinct by (template, counts, split)", budget, depth)
@@ -452,7 +471,7 @@ func runC10(c *ctx) {
 	c.Exhaust = false // the random part is not exhaustive; the enumerated part is (see exhaustive_templates)
 
 	// random part
-	c.parallel(c.pick(8000, 400000), func(i int, r *rng.R) {
+	c.parallel(c.pick(8000, 200000), func(i int, r *rng.R) {
 		g := gen.New(r, gen.Profile{MaxDepth: 1 + r.Intn(6), Vars: true, Ellipsis: true, PlainNames: true, Budget: 200, MaxKids: 4, MaxElems: 3})
 		var tpl *ref.Item
 		for try := 0; try < 20; try++ {
